@@ -1083,6 +1083,69 @@ def c02_reconnect_replay_case(tid, victim, keep, order, nmsgs=2):
     return run, False, drained
 
 
+def c02_label_join_case(tid, victim, whose, src_phase, nmsgs=12):
+    """Labels whose concatenation coincides: the frame of (side S, phase "10") shown to the victim as (side S + "1", phase "0") - the
+    peer's eleventh message (`whose` = "peer") or the victim's own, reflected (`whose` = "own") - while the genuine phase "0" is
+    withheld, so that the phase has not been accepted yet.  Side and phase each enter the message key on their own."""
+    run = RealRun(tid, "c02-label-join")
+    w = run.world
+    other = "B" if victim == "A" else "A"
+    for c in ("A", "B"):
+        run.apply({"a": "ConnOpen", "c": c})
+        run.apply({"a": "AppSetCode", "c": c, "code": "4-alpha-beta"})
+    for c in ("A", "B"):
+        for k in range(nmsgs):
+            run.apply({"a": "AppSend", "c": c, "data": ("m:%s:%d" % (c, k)).encode().hex()})
+    vcl = w.clients[victim]
+    ocl = w.clients[other]
+
+    def numeric_from_peer(fr):
+        return fr.get("type") == "message" and fr.get("side") == ocl.side and str(fr.get("phase", "")).isdigit()
+    # everything happens but the delivery of the peer's application messages to the victim
+    for _ in range(400 + 60 * nmsgs):
+        acts = w.enabled(faults=False)
+        pick = None
+        for a in acts:
+            if a["a"] == "Deliver":
+                conn = w.conn(a["k"])
+                if conn.client.name == victim and conn.s2c and numeric_from_peer(conn.s2c[0]):
+                    # let the frames behind it (the victim's own echoes, acks) overtake: the mailbox is an unordered set
+                    later = [i for i, fr in enumerate(conn.s2c) if not numeric_from_peer(fr)]
+                    if later:
+                        pick = {"a": "MoveS2C", "k": conn.id, "i": later[0], "to": 0}
+                        break
+                    continue
+            pick = a
+            break
+        if pick is None:
+            break
+        run.apply(pick)
+    conn = w.live_conn(vcl)
+    if conn is None:
+        return run, False, False
+    zero = [i for i, fr in enumerate(conn.s2c) if numeric_from_peer(fr) and fr["phase"] == "0"]
+    if zero:
+        run.apply({"a": "WithholdS2C", "k": conn.id, "i": zero[0]})
+    # the peer's other messages arrive (they wait in the victim's reorder buffer for phase 0)
+    run.drain(limit=400 + 40 * nmsgs)
+    conn = w.live_conn(vcl)
+    if conn is None:
+        return run, False, False
+    side = ocl.side if whose == "peer" else vcl.side
+    f = conn.srv
+    mb = f["app"]["mailboxes"].get(f["mailbox"]) if f.get("app") and f.get("mailbox") else None
+    idx = [i for i, m in enumerate(mb["messages"]) if m.get("side") == side and m.get("phase") == src_phase] if mb else []
+    if not idx:
+        return run, False, False
+    # the server shows that stored frame once more, its label's digit moved from the phase to the side
+    run.apply({"a": "Dup", "k": conn.id, "m": idx[0]})
+    run.apply({"a": "TamperS2C", "k": conn.id, "i": len(conn.s2c) - 1, "op": "phase", "v": src_phase[1:]})
+    run.apply({"a": "TamperS2C", "k": conn.id, "i": len(conn.s2c) - 1, "op": "side", "v": side + src_phase[:1]})
+    drained = run.drain(limit=400 + 40 * nmsgs)
+    return run, False, drained
+
+
+
 def c02_case(tid, victim, frame_index, op, rng):
     """honest exchange of two messages each way; the server manipulates the frame_index-th message frame
     delivered to `victim` (byte-level variants chosen by rng)"""
@@ -1698,6 +1761,21 @@ def run_pipeline(prop, tier, v, quick):
                             continue
                         runs[tid] = run_
                         records.append(run_.finish(drained, goal=False))
+            # labels whose concatenation coincides (side S, phase "10" shown as side S+"1", phase "0"; "11" as S+"1", "1"; ...)
+            n = 0
+            for victim in ("A", "B"):
+                for whose in ("peer", "own"):
+                    for src_phase in (("10",) if quick else ("10", "11")):
+                        tid += 1
+                        n += 1
+                        try:
+                            run_, goal, drained = c02_label_join_case(tid, victim, whose, src_phase)
+                        except Exception as e:
+                            cov.setdefault("family_errors", []).append("label-join %s %s: %r" % (victim, whose, e))
+                            continue
+                        runs[tid] = run_
+                        records.append(run_.finish(drained, goal=False))
+            cov["label_join_cases"] = n
             # long sessions: whatever a client remembers about what it has already processed must not wear out with the number
             # of messages (70 and 150 from each side before the replay)
             for victim, keep, nm in (("A", None, 70), ("B", ("version",), 70), ("A", ("pake", "version"), 150)):
